@@ -201,6 +201,49 @@ PIPELINES.append(Pipeline('U5_wkb_multipolygon_polygon_start', units=[U_hdr, U_m
     enforce='WKBFactoryImpl_multipolygon_polygon_start', harness='void harness(void) { struct WKBFactoryImpl* f; WKBFactoryImpl_multipolygon_polygon_start(f); __CPROVER_assert(0, "canary"); }',
     noflags=['--conversion-check'], replay=('c17_geom', lambda cex, o: ['wkbreuse'])))
 
+# ---- WKT / GeoJSON: every geometry starts from an empty text (whatever a previous, abandoned geometry left behind) -----------------------------------
+WKT = 'include/osmium/geom/wkt.hpp'
+GJ = 'include/osmium/geom/geojson.hpp'
+TXT_PRELUDE = '''
+/* std::string members: only the length is kept */
+typedef struct vstr { size_t size; } vstr;
+struct TextFactoryImpl { vstr m_srid_prefix; vstr m_str; int m_precision; int m_wkt_type; };
+void vstr_assign(vstr* d, const vstr* s) { d->size = s->size; }
+void vstr_append(vstr* d, const vstr* s) { __CPROVER_assert(d->size <= SIZE_MAX - s->size, "model: string length"); d->size += s->size; }
+void vstr_assign_n(vstr* d, size_t n) { d->size = n; }
+void vstr_append_n(vstr* d, size_t n) { __CPROVER_assert(d->size <= SIZE_MAX - n, "model: string length"); d->size += n; }
+'''
+
+
+def text_ops(body, R):
+    """m_str = m_srid_prefix; / m_str += m_srid_prefix; / m_str = "lit"; / m_str += "lit"; / m_str += 'c';  ->  length-only string operations (the literal's length is computed here)"""
+    n = 0
+    def lit_len(l):
+        return len(bytes(l, 'utf-8').decode('unicode_escape'))
+    for pat, rep in ((r'm_str = m_srid_prefix;', 'vstr_assign(&m_str, &m_srid_prefix);'), (r'm_str \+= m_srid_prefix;', 'vstr_append(&m_str, &m_srid_prefix);')):
+        body, k = re.subn(pat, rep, body); n += k
+    body, k = re.subn(r'm_str = "((?:[^"\\]|\\.)*)";', lambda m: 'vstr_assign_n(&m_str, %d); /* "%s" */' % (lit_len(m.group(1)), m.group(1).replace('*/', '* /')), body); n += k
+    body, k = re.subn(r'm_str \+= "((?:[^"\\]|\\.)*)";', lambda m: 'vstr_append_n(&m_str, %d); /* "%s" */' % (lit_len(m.group(1)), m.group(1).replace('*/', '* /')), body); n += k
+    body, k = re.subn(r"m_str \+= '(?:[^'\\]|\\.)';", 'vstr_append_n(&m_str, 1);', body); n += k
+    if not n:
+        raise cx.ExtractError('no operation on m_str found')
+    R.hit('unit_rewrite:text output operations', n)
+    return body
+
+
+for fmt, file, cls, starts in (('wkt', WKT, 'WKTFactoryImpl', (('linestring_start', 'self->m_srid_prefix.size + 11'), ('polygon_start', 'self->m_srid_prefix.size + 9'), ('multipolygon_start', 'self->m_srid_prefix.size + 13'))),
+                               ('geojson', GJ, 'GeoJSONFactoryImpl', (('linestring_start', '36 /* {"type":"LineString","coordinates":[ */'), ('polygon_start', '34 /* {"type":"Polygon","coordinates":[[ */'), ('multipolygon_start', '38 /* {"type":"MultiPolygon","coordinates":[ */')))):
+    for nm, want in starts:
+        u = Unit(file, nm, cls=cls, selftype='struct TextFactoryImpl', pre=[text_ops])
+        cn = cls + '_' + nm
+        PIPELINES.append(Pipeline('U6_%s_%s' % (fmt, nm), units=[u], prelude=TXT_PRELUDE, contracts={cn: [
+            ('pre:ANY state of the factory - the previous geometry may have been abandoned by an exception half way', 'requires',
+             '__CPROVER_is_fresh(self, sizeof(*self)) && self->m_str.size <= (1u << 30) && self->m_srid_prefix.size <= 32'),
+            ('post:the text holds exactly the opening of the new geometry (SRID prefix and keyword resp. the JSON preamble), nothing of what was there before', 'ensures', 'self->m_str.size == ' + want),
+            ('frame', 'assigns', 'self->m_str.size')]}, enforce=cn,
+            harness='void harness(void) { struct TextFactoryImpl* f; %s(f); __CPROVER_assert(0, "canary"); }' % cn, noflags=['--conversion-check'],
+            replay=('c17_geom', lambda cex, o: ['textreuse']), note='length-only model of the output string; the length of each literal is computed from the source text'))
+
 TRUSTED = ['the projection rejects invalid locations (Location::lon()/lat() throw invalid_location) and the output implementation appends each point it is given (assumed contract of the ghost sink)']
 ASSUMPTIONS = ['node reference lists of at most 5000 entries (object-size bound; the loop contract makes the proof independent of it)']
 NOT_DECIDED = ['WKB/WKT/GeoJSON byte layout and count patching', 'reverse iteration', 'Mercator values inside the exports (C18)', 'create_multipolygon ring/polygon bracketing']
